@@ -529,6 +529,101 @@ fn stream_seam_sweep(rep: &mut Report) {
     }
 }
 
+/// LX supplement: the real forwarding loops of socks5.rs, http_proxy.rs and handler.rs end to end
+/// through TLS: N bytes to an echo target and back, on two concurrent connections with distinct
+/// patterns (the second connection reuses the first one's session).
+fn lx_part(rep: &mut Report, thorough: bool) {
+    use crate::lx::*;
+    use tokio::io::{AsyncReadExt, AsyncWriteExt};
+    let rt = crate::semi::rt_multi();
+    let sizes: Vec<usize> = if thorough { vec![1, 8191, 8192, 8193, 65_535, 65_536, 200_000, 1_000_000] } else { vec![1, 8192, 8193, 65_536, 200_000] };
+    let r: Result<Vec<(String, Option<String>)>, String> = rt.block_on(async {
+        let lx = start_lx("pw", "pw", pool_cfg(3600, 3600, 1), true, true).await?;
+        let target = start_target("127.0.0.1", TargetMode::Echo, vec![]).await;
+        let mut out = vec![];
+        for front in ["socks5", "http-connect"] {
+            for &n in &sizes {
+                let mut hs = vec![];
+                for conn in 0..2u8 {
+                    let proxy = if front == "socks5" { lx.socks.unwrap() } else { lx.http.unwrap() };
+                    let taddr = target.addr;
+                    hs.push(tokio::spawn(async move {
+                        let s = if front == "socks5" {
+                            socks5_connect(proxy, taddr).await
+                        } else {
+                            async {
+                                let mut s = tokio::net::TcpStream::connect(proxy).await.map_err(|e| e.to_string())?;
+                                s.write_all(format!("CONNECT {taddr} HTTP/1.1\r\nHost: {taddr}\r\n\r\n").as_bytes()).await.map_err(|e| e.to_string())?;
+                                let mut acc = vec![];
+                                let mut b = [0u8; 1];
+                                while !acc.ends_with(b"\r\n\r\n") {
+                                    match tokio::time::timeout(Duration::from_secs(5), s.read(&mut b)).await {
+                                        Ok(Ok(1)) => acc.push(b[0]),
+                                        _ => return Err(format!("CONNECT reply {:?}", String::from_utf8_lossy(&acc))),
+                                    }
+                                }
+                                if !acc.starts_with(b"HTTP/1.1 200") {
+                                    return Err(format!("CONNECT reply {:?}", String::from_utf8_lossy(&acc)));
+                                }
+                                Ok(s)
+                            }
+                            .await
+                        };
+                        let mut s = match s {
+                            Ok(s) => s,
+                            Err(e) => return Some(format!("cannot establish the tunnel: {e}")),
+                        };
+                        let data = pat_vec(40 + conn, 0, 0, n);
+                        let (mut rd, mut wr) = s.split();
+                        let d2 = data.clone();
+                        let writer = async move {
+                            let _ = wr.write_all(&d2).await;
+                            let _ = wr.flush().await;
+                        };
+                        let reader = async {
+                            let mut got = Vec::with_capacity(n);
+                            let mut buf = vec![0u8; 65536];
+                            while got.len() < n {
+                                match tokio::time::timeout(Duration::from_secs(10), rd.read(&mut buf)).await {
+                                    Ok(Ok(k)) if k > 0 => got.extend_from_slice(&buf[..k]),
+                                    _ => break,
+                                }
+                            }
+                            got
+                        };
+                        let (_, got) = tokio::join!(writer, reader);
+                        if got == data {
+                            None
+                        } else {
+                            let first_bad = got.iter().zip(data.iter()).position(|(a, b)| a != b).unwrap_or(got.len().min(data.len()));
+                            Some(format!("echo of {n} bytes came back as {} bytes, first difference at offset {first_bad}", got.len()))
+                        }
+                    }));
+                }
+                for (c, h) in hs.into_iter().enumerate() {
+                    let r = h.await.unwrap_or_else(|e| Some(format!("task: {e}")));
+                    out.push((format!("{front}, {n} bytes each way, connection {c} of 2 concurrent"), r));
+                }
+            }
+        }
+        Ok(out)
+    });
+    drop(rt);
+    match r {
+        Err(e) => rep.machinery(format!("LX: {e}")),
+        Ok(v) => {
+            for (name, r) in v {
+                rep.case(Some(&name));
+                rep.traces_validated += 1;
+                if let Some(e) = r {
+                    let k = if e.contains("cannot establish") { "C01:lx:tunnel-failed" } else { "C01:lx:bytes-not-identical" };
+                    rep.violation(k, &format!("{name}: {e}"), json!({"engine": "LX", "case": name}));
+                }
+            }
+        }
+    }
+}
+
 pub fn run(tier: Tier) -> i32 {
     let mut rep = Report::new("C01", tier, "model_checking");
     rep.assumptions = vec![
@@ -536,6 +631,7 @@ pub fn run(tier: Tier) -> i32 {
         "payload byte i of stream s, direction d is a fixed function f(s,d,i); other contents are not explored".into(),
     ];
     stream_seam_sweep(&mut rep);
+    lx_part(&mut rep, tier.is_thorough());
     let cap = Duration::from_secs(if tier.is_thorough() { 1500 } else { 90 });
     run_items(
         &mut rep,
